@@ -60,19 +60,10 @@ def run_screen_model(ctx):
 
 def run_tlaps(ctx):
     """Unbounded lemmas (monotonicity, harmonic-mean inequality) proved by TLAPS: spec/ScreenLemmas.tla."""
-    import re
-    import shutil
-    import subprocess
-    d = tlc.scratch("tlaps")
-    try:
-        shutil.copy(os.path.join(tlc.SPEC, "ScreenLemmas.tla"), d)
-        p = subprocess.run(["tlapm", "ScreenLemmas.tla"], cwd=d, stdout=subprocess.PIPE, stderr=subprocess.STDOUT, text=True, timeout=600)
-        m = re.search(r"All (\d+) obligations? proved", p.stdout)
-        if not m:
-            raise tlc.MachineryError("TLAPS did not prove ScreenLemmas.tla:\n" + p.stdout[-1200:])
-        ctx.extra["tlaps"] = {"module": "ScreenLemmas.tla", "theorems": ["Monotone", "HarmonicMean"], "obligations_proved": int(m.group(1))}
-    finally:
-        tlc.cleanup(d)
+    n, out = tlc.tlaps("ScreenLemmas")
+    if n is None:
+        raise tlc.MachineryError("TLAPS did not prove ScreenLemmas.tla:\n" + out[-1200:])
+    ctx.extra["tlaps"] = {"module": "ScreenLemmas.tla", "theorems": ["Monotone", "HarmonicMean"], "obligations_proved": n}
 
 
 TOLS = [None, 0.5, 0.1, 1e-2, 1e-4, 1e-8, 1e-12, 1e-16]
